@@ -532,6 +532,7 @@ class RefMap:
         self.pol = 0
         self.transferred = {}
         self.size_req = {}
+        self.since_resize = {}
         self.lftl_pending = {}
         self.read_settings = {}
         self.alloc = {}
@@ -740,9 +741,18 @@ class RefMap:
         val = g[1] if len(g) > 1 else None
         calls = [x[5:] for x in g if x.startswith("call=")]
 
+        # since the last explicit resize of this table only lookups were made: a lookup that now disagrees with the reference
+        # map shows that rehash / reserve did not keep the contents (C10), besides being a refinement failure (C02)
+        if op in ("rehash", "reserve"):
+            self.since_resize[tid] = "%s at request %d" % (line, i)
+        elif op not in ("find", "findv", "api", "digest", "inv", "stats"):
+            self.since_resize.pop(tid, None)
+
         def expect(cond, why, prop="C02"):
             if not cond:
                 self.fail(prop, i, line, got, why)
+                if prop == "C02" and op in ("find", "findv") and tid in self.since_resize:
+                    self.fail("C10", i, line, got, why + " - after `%s` returned (contents not kept by the explicit resize)" % self.since_resize[tid])
 
         if op == "api":
             k = int(w[2])
